@@ -130,3 +130,51 @@ def conserve(cap_cpu, cap_ram, c1, r1, c2, r2, c3, r3, m1, m2, m3,
         return "REACHED" if want in seen else ""
     path_done()
     return ""
+
+
+def conserve_two_suspensions(cap_cpu, cap_ram, ramA, ramB, cpuA, cpuB, dA, dB, dC, K=8, want=""):
+    """Two 2-operator containers suspended right after their first operators (dA / dB ticks) plus a
+    third, ordinary container (dC ticks): conservation must hold through overlapping write-outs,
+    also when both end in the same tick or when the pool has no running container meanwhile."""
+    reset_globals()
+    pool = ResourcePool(pool_id=0, cpu_pool=cap_cpu, ram_pool=cap_ram, ticks_per_second=1)
+    pa, opsA = mk_pipeline("pa", 3, 2, [True], [[seg_ticks(dA, 1)], [seg_ticks(3, 1)]])
+    pb, opsB = mk_pipeline("pb", 3, 2, [True], [[seg_ticks(dB, 1)], [seg_ticks(3, 1)]])
+    pc, opsC = mk_pipeline("pc", 3, 1, [], [[seg_ticks(dC, 1)]])
+    try:
+        batch = [Assignment(ops=opsA, cpu=cpuA, ram=ramA, priority=Priority.BATCH_PIPELINE, pool_id=0, pipeline_id="pa"),
+                 Assignment(ops=opsB, cpu=cpuB, ram=ramB, priority=Priority.BATCH_PIPELINE, pool_id=0, pipeline_id="pb"),
+                 Assignment(ops=opsC, cpu=1, ram=2, priority=Priority.BATCH_PIPELINE, pool_id=0, pipeline_id="pc")]
+    except AssertionError:
+        return ""
+    seen = set()
+    for t in range(K):
+        sus = []
+        if t == dA:
+            sus.append(Suspend("c1", 0))
+        if t == dB:
+            sus.append(Suspend("c2", 0))
+        try:
+            pool.run_one_tick(sus, batch if t == 0 else [])
+        except Exception:
+            if t == 0:
+                if want:
+                    return ""
+                path_done()
+                return ""       # batch did not fit: not this scenario
+            return "C03:admissible_suspension_rejected"
+        r = _inv(pool, cap_cpu, cap_ram, False, f"tick{t}")
+        if r:
+            return r
+        if len(pool.suspending_containers) == 2:
+            seen.add("both_suspending")
+        if pool.suspending_containers and not pool.active_containers:
+            seen.add("suspending_only")
+    if not pool.active_containers and not pool.suspending_containers:
+        if pool.avail_cpu_pool != cap_cpu or pool.avail_ram_pool != cap_ram:
+            return "C03:idle_pool_not_whole"
+        seen.add("idle_end")
+    if want:
+        return "REACHED" if want in seen else ""
+    path_done()
+    return ""
